@@ -399,6 +399,44 @@ fn hexes(acc: &mut Acc) {
     }
 }
 
+/// position x value on long inputs: every byte value at every position of strings of every length
+/// 4..=72 (four and a half 16-byte blocks: word-at-a-time fast paths, SIMD-style block loops),
+/// over an ASCII and over a high-half filler, so that a lone special byte sits at every offset of
+/// every block; the same for hex strings up to 40 bytes
+fn cp437_long_with(filler: u8, acc: &mut Acc) {
+    for len in 4..=72usize {
+        for pos in 0..len {
+            for b in 0..=255u8 {
+                if b == 0 && pos == len - 1 {
+                    continue; // trailing NUL: not canonical (covered by the short strings)
+                }
+                let mut s = vec![filler; len];
+                s[pos] = b;
+                cp437_case(&s, acc);
+                acc.count("long_cases", 1);
+            }
+        }
+    }
+}
+fn cp437_long_ascii(acc: &mut Acc) {
+    cp437_long_with(b'x', acc)
+}
+fn cp437_long_high(acc: &mut Acc) {
+    cp437_long_with(0x9a, acc)
+}
+fn hex_long(acc: &mut Acc) {
+    for len in 3..=40usize {
+        for pos in 0..len {
+            for b in 0..=255u8 {
+                let mut s = vec![0x3cu8; len];
+                s[pos] = b;
+                hex_case(&s, acc);
+                acc.count("long_cases", 1);
+            }
+        }
+    }
+}
+
 fn receipts(acc: &mut Acc) {
     let mut vals: Vec<usize> = (0..=9999).collect();
     vals.push(0xffff);
@@ -443,6 +481,9 @@ pub fn run(run: &RunInfo) -> Summary {
         ("c17/tag", tags),
         ("c17/cp437", cp437),
         ("c17/hex", hexes),
+        ("c17/cp437/long-ascii", cp437_long_ascii),
+        ("c17/cp437/long-high", cp437_long_high),
+        ("c17/hex/long", hex_long),
         ("c17/receipt", receipts),
     ];
     let mut acc = par_for(jobs.len(), |i, acc| {
@@ -470,7 +511,7 @@ pub fn run(run: &RunInfo) -> Summary {
         transitions: acc.get("calls"),
         traces_validated: cases,
         distinct_nontrivial: acc.set_len("int_values") + acc.get("tags_representable") + acc.set_len("cp437_chars") + acc.get("bcd_rejected"),
-        rule: "all u8/u16 values and a defined finite set for u32/u64/usize (digit and bit boundaries, 9 mixed patterns per digit count, all values with exactly two non-zero digits from {1,9}, the 300 values below the maximum) x {LE, BE, BCD}; all 65,536 tags x {BigEndian, Default}; every BCD string of length 0..=5 over nibbles {0,1,9} with optional trailing F and every spelling of max-150..max+1200 for each integer width, decoded as all five integer types; all 256 CP437 bytes in every position of strings of length 1..3 and all three-byte strings over the upper half of the code page (thorough: all 16.7 M three-byte strings); all hex strings of <=2 bytes; receipt numbers 0..=9999 and FFFF. distinct_nontrivial = distinct integer values + representable tags + distinct decoded texts + rejected BCD strings".into(),
+        rule: "all u8/u16 values and a defined finite set for u32/u64/usize (digit and bit boundaries, 9 mixed patterns per digit count, all values with exactly two non-zero digits from {1,9}, the 300 values below the maximum) x {LE, BE, BCD}; all 65,536 tags x {BigEndian, Default}; every BCD string of length 0..=5 over nibbles {0,1,9} with optional trailing F and every spelling of max-150..max+1200 for each integer width, decoded as all five integer types; all 256 CP437 bytes in every position of strings of length 1..3 and all three-byte strings over the upper half of the code page (thorough: all 16.7 M three-byte strings); every byte value at every position of CP437 strings of every length 4..=72 over an ASCII and over a high-half filler, and of hex strings of length 3..=40; all hex strings of <=2 bytes; receipt numbers 0..=9999 and FFFF. distinct_nontrivial = distinct integer values + representable tags + distinct decoded texts + rejected BCD strings".into(),
         exhaustive: true,
         required_witnesses: vec![
             "BCD digits beyond an integer's range were rejected".into(),
